@@ -9,21 +9,25 @@
    the header carries exactly the number of bytes written." *)
 EXTENDS Integers, Sequences, TLC
 
-CONSTANTS Expecteds,   \* expected sizes explored; -1 = none (end marker)
+CONSTANTS Expecteds,   \* expected sizes explored; -1 = none
+          Markers,     \* values of use_end_marker explored (LZMAWriter::new; new_use_header derives it from the size)
+          Headers,     \* values of use_header explored
           WriteSizes,  \* sizes of write calls explored
           MaxCalls
 
-VARIABLES exp, cur, calls, state, hdr
-vars == <<exp, cur, calls, state, hdr>>
+VARIABLES exp, cur, calls, state, hdr, marker, header
+vars == <<exp, cur, calls, state, hdr, marker, header>>
 
-Init == exp \in Expecteds /\ cur = 0 /\ calls = <<>> /\ state = "open" /\ hdr = exp
+\* hdr: the size field of the 13-byte header (-1 = unknown, -2 = no header is written)
+Init == /\ exp \in Expecteds /\ marker \in Markers /\ header \in Headers
+        /\ cur = 0 /\ calls = <<>> /\ state = "open" /\ hdr = (IF header THEN exp ELSE -2)
 
 Write(n) ==
   /\ state = "open" /\ Len(calls) < MaxCalls
   /\ LET over == exp # -1 /\ cur + n > exp IN
        /\ cur' = IF over THEN cur ELSE cur + n
        /\ calls' = Append(calls, [op |-> "w", n |-> n, ok |-> ~over])
-  /\ UNCHANGED <<exp, state, hdr>>
+  /\ UNCHANGED <<exp, state, hdr, marker, header>>
 
 \* finish(self): the writer is consumed either way
 Finish ==
@@ -31,15 +35,15 @@ Finish ==
   /\ LET short == exp # -1 /\ exp # cur IN
        /\ state' = IF short THEN "refused" ELSE "finished"
        /\ calls' = Append(calls, [op |-> "x", n |-> 0, ok |-> ~short])
-  /\ UNCHANGED <<exp, cur, hdr>>
+  /\ UNCHANGED <<exp, cur, hdr, marker, header>>
 
 Next == (\E n \in WriteSizes : Write(n)) \/ Finish
 Spec == Init /\ [][Next]_vars
 
 TypeOK == state \in {"open", "refused", "finished"} /\ cur >= 0
 \* a finished file with a declared size holds exactly that many bytes; an overrun is never accepted
-HeaderExact == state = "finished" => (hdr = -1 \/ hdr = cur)
+HeaderExact == (state = "finished" /\ header) => (hdr = -1 \/ hdr = cur)
 NoOverrun   == exp # -1 => cur <= exp
-\* finish succeeds exactly when nothing is missing
+\* finish succeeds exactly when nothing is missing - whether or not an end marker is written as well
 ShortRefused == state = "refused" => (exp # -1 /\ cur < exp)
 =============================================================================
